@@ -590,12 +590,12 @@ def spy_tu(decls):
 
 
 # leading scalar arguments used to exhaust registers before the aggregate: (n longs, n doubles)
-PRE_ARGS = [(0, 0), (5, 0), (6, 0), (0, 7), (0, 8), (4, 6), (5, 7)]
+PRE_ARGS = [(0, 0), (5, 0), (6, 0), (0, 7), (0, 8), (4, 6), (5, 7), (4, 0), (3, 7)]
 
 
 def sig_tu(decls):
     """c2m side: function definitions whose MIR signatures (c2m -S) show the classification"""
-    out = []
+    out = ['struct c08_tl { long x; };', 'struct c08_td { double x; };']
     for i, t in decls:
         e = Emit(i, t)
         out += e.defs
@@ -603,7 +603,9 @@ def sig_tu(decls):
         out.append('%s sobj%d;' % (tn, i))
         out.append('%s ret%d (void) { return sobj%d; }' % (tn, i, i))
         for j, (nl, nd) in enumerate(PRE_ARGS):
-            ps = ['long l%d' % k for k in range(nl)] + ['double d%d' % k for k in range(nd)] + ['%s a' % tn]
+            # the aggregate, then two one-register structs: they must still get a register the aggregate left
+            ps = ['long l%d' % k for k in range(nl)] + ['double d%d' % k for k in range(nd)] + [
+                '%s a' % tn, 'struct c08_tl tl', 'struct c08_td td']
             out.append('void arg%d_%d (%s) { }' % (i, j, ', '.join(ps)))
     return '\n'.join(out) + '\n'
 
@@ -636,3 +638,107 @@ def parse_sigs(mir_text):
             nq = (size + 7) // 8
             res[name] = {0: 'M', 1: 'I' * nq, 2: 'S' * nq, 3: 'IS', 4: 'SI'}[k]
     return res
+
+
+# ------------------------------------------------------------------ by-value passing across the c2m / gcc boundary
+
+PASS_PRELUDE = r'''
+#include <string.h>
+struct c08_tl { long x; };
+struct c08_td { double x; };
+static void c08_pat (void *p, unsigned long n, unsigned k) {
+  unsigned char *b = p;
+  for (unsigned long i = 0; i < n; i++) b[i] = (unsigned char) (1 + (k * 37 + i * 11) % 250);
+}
+/* a long double store may clobber its 6 padding bytes, which can overlap other union members:
+   put the pattern back */
+static void c08_repat (void *obj, void *sub, unsigned long n, unsigned k) {
+  unsigned char *b = obj;
+  for (unsigned long i = (unsigned char *) sub - b; n > 0; i++, n--) b[i] = (unsigned char) (1 + (k * 37 + i * 11) % 250);
+}
+/* checksum of the non-padding bits (mask m) of an object */
+static unsigned long c08_sum (const void *p, const void *m, unsigned long n) {
+  const unsigned char *b = p, *mm = m;
+  unsigned long h = 17;
+  for (unsigned long i = 0; i < n; i++) h = h * 31 + (b[i] & mm[i]);
+  return h;
+}
+'''
+
+
+def pass_common(decls):
+    """definitions shared by both sides: types, mask_<i>(), fill_<i>(p,k), sum_<i>(p)"""
+    out = [PASS_PRELUDE]
+    info = []
+    for i, t in decls:
+        e = Emit(i, t)
+        out += e.defs
+        tn = e.top
+        fix = []
+        for idx, (path, lt, bf) in enumerate(scalar_paths(e)):
+            if bf:
+                continue
+            if lt == ('b', 'bool'):
+                fix.append('p->%s = (k + %d) & 1;' % (path, idx))
+            elif lt[0] == 'b' and lt[1] in FP_KINDS:
+                fix.append('p->%s = (%s) (k %% 1000 + %d) + 0.25;' % (path, CNAME[lt[1]], idx))
+                if lt[1] == 'ldouble':
+                    fix.append('c08_repat (p, (unsigned char *) &p->%s + 10, 6, k);' % path)
+        out += ['static %s c08_mask%d; static int c08_mask%d_ok;' % (tn, i, i),
+                'static void *mask%d (void) { if (!c08_mask%d_ok) { c08_mask%d_ok = 1; %s } return &c08_mask%d; }'
+                % (i, i, i, ' '.join(mask_code(e, 'c08_mask%d' % i)), i),
+                'static void fill%d (%s *p, unsigned k) { c08_pat (p, sizeof *p, k); %s }' % (i, tn, ' '.join(fix)),
+                'static unsigned long sum%d (const %s *p) { return c08_sum (p, mask%d (), sizeof *p); }' % (i, tn, i)]
+        j = i % len(PRE_ARGS)
+        nl, nd = PRE_ARGS[j]
+        params = ['long l%d' % k for k in range(nl)] + ['double d%d' % k for k in range(nd)] + [
+            '%s a' % tn, 'struct c08_tl tl', 'struct c08_td td', 'long post']
+        args = ['%dL' % (100 + k) for k in range(nl)] + ['%d.5' % (200 + k) for k in range(nd)]
+        extra = ' + '.join(['l%d' % k for k in range(nl)] + ['(unsigned long) (d%d * 2)' % k for k in range(nd)] + ['0'])
+        info.append(dict(i=i, tn=tn, params=', '.join(params), pre_args=args, extra=extra,
+                         ptypes=', '.join(['long'] * nl + ['double'] * nd + [tn, 'struct c08_tl', 'struct c08_td', 'long'])))
+    return '\n'.join(out) + '\n', info
+
+
+TAKE_BODY = '{ return sum%d (&a) * 3 + (unsigned long) tl.x * 5 + (unsigned long) (td.x * 2) * 7 + (unsigned long) post * 11 + (%s); }'
+
+
+def pass_tus(decls):
+    """returns (gcc library source, c2m main source).  Output lines of the c2m program:
+    'P <i> <dir> ok|BAD' with dir: a (c2m caller -> gcc callee, argument), r (gcc callee -> c2m caller, return
+    value), A (gcc caller -> c2m callee, argument), R (c2m callee -> gcc caller, return value)"""
+    common, info = pass_common(decls)
+    lib = [common]
+    main = ['#include <stdio.h>', common]
+    body = []
+    for d in info:
+        i, tn = d['i'], d['tn']
+        take = TAKE_BODY % (i, d['extra'])
+        lib.append('unsigned long g_take%d (%s) %s' % (i, d['params'], take))
+        lib.append('%s g_give%d (unsigned k) { %s v; fill%d (&v, k); return v; }' % (tn, i, tn, i))
+        call_args = ', '.join(d['pre_args'] + ['v', 'tl', 'td', '77L'])
+        lib.append('unsigned long g_call_take%d (unsigned long (*cb) (%s), unsigned k) { %s v; struct c08_tl tl = {31}; '
+                   'struct c08_td td = {41.5}; fill%d (&v, k); return cb (%s); }' % (i, d['ptypes'], tn, i, call_args))
+        lib.append('unsigned long g_call_give%d (%s (*cb) (unsigned), unsigned k) { %s v = cb (k); return sum%d (&v); }'
+                   % (i, tn, tn, i))
+        main.append('extern unsigned long g_take%d (%s);' % (i, d['params']))
+        main.append('extern %s g_give%d (unsigned k);' % (tn, i))
+        main.append('extern unsigned long g_call_take%d (unsigned long (*cb) (%s), unsigned k);' % (i, d['ptypes']))
+        main.append('extern unsigned long g_call_give%d (%s (*cb) (unsigned), unsigned k);' % (i, tn))
+        main.append('unsigned long c_take%d (%s) %s' % (i, d['params'], take))
+        main.append('%s c_give%d (unsigned k) { %s v; fill%d (&v, k); return v; }' % (tn, i, tn, i))
+        main.append('static void pass%d (void) {' % i)
+        main.append('  %s v, w; struct c08_tl tl = {31}; struct c08_td td = {41.5}; unsigned long e, r; unsigned k = %d;' % (tn, 3 + i))
+        main.append('  fill%d (&v, k); e = c_take%d (%s);' % (i, i, call_args))
+        main.append('  r = g_take%d (%s); printf ("P %d a %%s\\n", r == e ? "ok" : "BAD");' % (i, call_args, i))
+        main.append('  w = g_give%d (k + 1); fill%d (&v, k + 1); printf ("P %d r %%s\\n", sum%d (&w) == sum%d (&v) ? "ok" : "BAD");' % (i, i, i, i, i))
+        main.append('  fill%d (&v, k + 2); e = c_take%d (%s); r = g_call_take%d (c_take%d, k + 2); printf ("P %d A %%s\\n", r == e ? "ok" : "BAD");'
+                    % (i, i, call_args, i, i, i))
+        main.append('  fill%d (&v, k + 3); r = g_call_give%d (c_give%d, k + 3); printf ("P %d R %%s\\n", r == sum%d (&v) ? "ok" : "BAD");'
+                    % (i, i, i, i, i))
+        main.append('}')
+        body.append('  pass%d ();' % i)
+    main.append('int main (void) {')
+    main += body
+    main += ['  return 0;', '}']
+    return '\n'.join(lib) + '\n', '\n'.join(main) + '\n'
